@@ -47,6 +47,7 @@ fn main() {
             "sched-explore" => workers::worker_loop(&mut |req| schedmc::arc_side::worker_explore(req)),
             #[cfg(feature = "arc")]
             "arc-run" => workers::worker_loop(&mut |req| schedmc::arc_side::worker_arc_run(req)),
+            "rc-run" => workers::worker_loop(&mut |req| schedmc::worker_rc_run(req)),
             "tmo-run" => workers::worker_loop(&mut |req| tmomc::worker_run(req)),
             "lib-call" => workers::worker_loop(&mut |req| libmc::worker_call(req)),
             _ => 2,
